@@ -265,7 +265,26 @@ def build_daemon_test_binary():
     return out_path
 
 
-WEAVERS = []  # functions returning {dst_path_in_repo: generated_file}
+def weave_span_backoff():
+    """virtual back-off: the 15 s sleep between RecordSpan attempts becomes 15 ms (a copy of the CURRENT source file with
+    that one constant rewritten is grafted over it; /repo is untouched)"""
+    src = os.path.join(DAEMON, "internal", "newrelic", "infinite_tracing", "trace_observer.go")
+    try:
+        text = open(src).read()
+    except OSError:
+        return {}
+    new, n = re.subn(r"recordSpanBackoff\s*=\s*15\s*\*\s*time\.Second", "recordSpanBackoff = 15 * time.Millisecond", text)
+    if n != 1:
+        return {}
+    os.makedirs(os.path.join(BUILD, "woven"), exist_ok=True)
+    dst = os.path.join(BUILD, "woven", "trace_observer.go")
+    tmp = dst + ".%d" % os.getpid()
+    open(tmp, "w").write(new)
+    os.replace(tmp, dst)
+    return {src: dst}
+
+
+WEAVERS = [weave_span_backoff]  # functions returning {dst_path_in_repo: generated_file}
 
 
 def woven_files():
